@@ -77,24 +77,31 @@ Theorem C02_status : forall ops w,
   status_ok (sstatus (wst w)) ->
   status_ok (sstatus (wst (run w ops))) /\
   (sstatus (wst w) <> ST_CONVERGED -> sstatus (wst (run w ops)) = ST_CONVERGED -> exists i, In (ODone i true) ops) /\
-  (sstatus (wst w) <> ST_FAILED -> sstatus (wst (run w ops)) = ST_FAILED -> exists i, In (ODone i false) ops).
+  (sstatus (wst w) <> ST_FAILED -> sstatus (wst (run w ops)) = ST_FAILED -> exists i c, In (ODone i c) ops).
 Proof.
   intros ops w H. split; [apply run_status; exact H|]. split; [apply run_converged|apply run_failed].
 Qed.
 Print Assumptions C02_status.
 
-(* solver_t::done: stops iff converged or the step is not ok; go-on implies a valid state and leaves the status *)
+(* solver_t::done: stops iff converged or the step is not ok; go-on implies a valid state and leaves the status;
+   `converged` is only reported for a valid state (repo commit 3c2475d) *)
 Theorem C02_done_decision : forall s fc gc i c,
   snd (done_step s fc gc i c) = c || negb (i && valid s) /\
   (snd (done_step s fc gc i c) = false ->
      sstatus (fst (done_step s fc gc i c)) = sstatus s /\ valid s = true /\ i = true /\ c = false) /\
   (snd (done_step s fc gc i c) = true ->
-     sstatus (fst (done_step s fc gc i c)) = if c then ST_CONVERGED else ST_FAILED) /\
+     sstatus (fst (done_step s fc gc i c)) = if c && valid s then ST_CONVERGED else ST_FAILED) /\
   sfcalls (fst (done_step s fc gc i c)) = fc /\ sgcalls (fst (done_step s fc gc i c)) = gc /\
   sx (fst (done_step s fc gc i c)) = sx s /\ sfx (fst (done_step s fc gc i c)) = sfx s /\
   sgx (fst (done_step s fc gc i c)) = sgx s.
 Proof. exact done_decision. Qed.
 Print Assumptions C02_done_decision.
+
+(* the kernel-free reference decision applied by the driver to every observed done() call is the model's *)
+Theorem C02_done_ref : forall s fc gc i c,
+  done_ref s i c = (snd (done_step s fc gc i c), sstatus (fst (done_step s fc gc i c))).
+Proof. exact done_ref_spec. Qed.
+Print Assumptions C02_done_ref.
 
 (* ---- history and value_test ----------------------------------------------------------------------------------- *)
 
@@ -111,12 +118,13 @@ Print Assumptions C02_history.
    the result is max(df, dx) if k < patience and 0 otherwise; with no improvement ever, 0 once `patience` calls were
    made and DBL_MAX before *)
 Theorem C02_value_test_spec : forall s p,
-  value_test s p =
+  value_test s p = value_test_ref s p /\
+  value_test_ref s p =
   match first_impr (shist s) with
   | None => if Z.of_nat (length (shist s)) >=? p then PrimFloat.zero else f_dmax
   | Some (k, (df, dx)) => if Z.of_nat k <? p then fmax df dx else PrimFloat.zero
   end.
-Proof. exact value_test_spec. Qed.
+Proof. intros s p. split; [apply value_test_spec|reflexivity]. Qed.
 Print Assumptions C02_value_test_spec.
 
 (* ---- budget loop ------------------------------------------------------------------------------------------- *)
@@ -139,14 +147,15 @@ Theorem C02_accept_returned : forall k eps evs r, accept k eps evs r = true ->
 Proof. exact accept_returned. Qed.
 Print Assumptions C02_accept_returned.
 
-(* status in {max_iters, converged, failed}; converged only from a done() call whose flag was true; failed only
-   from a call with iter_ok = false or an invalid state *)
+(* status in {max_iters, converged, failed}; converged only from a done() call whose flag was true on a VALID state;
+   failed only from a call with iter_ok = false or an invalid state *)
 Theorem C02_accept_status : forall k eps evs r, accept k eps evs r = true ->
   status_ok (sstatus r) /\
   (sstatus r = ST_CONVERGED ->
-     exists e, In e evs /\ same_state r (ev_after e) = true /\ ev_conv e = true /\ ev_ret e = true) /\
+     exists e, In e evs /\ same_state r (ev_after e) = true /\ ev_conv e = true /\ ev_ret e = true /\
+               valid (ev_s e) = true) /\
   (sstatus r = ST_FAILED ->
-     exists e, In e evs /\ same_state r (ev_after e) = true /\ ev_conv e = false /\
+     exists e, In e evs /\ same_state r (ev_after e) = true /\
                (ev_iter_ok e = false \/ valid (ev_s e) = false)).
 Proof. exact accept_status. Qed.
 Print Assumptions C02_accept_status.
@@ -166,20 +175,25 @@ Theorem C02_accept_go_on_valid : forall k eps evs r, accept k eps evs r = true -
 Proof. exact accept_go_on_valid. Qed.
 Print Assumptions C02_accept_go_on_valid.
 
-(* `status <> failed implies finite` is FALSE for the faithful model of gd (`return state` without the validity
-   test): done(state, ok, converged = true) on a state with fx = +inf (gradient_test = |g| / inf = 0 < eps) is an
-   accepted trace with status `converged`.  Whether the real line search can leave such a state is searched. *)
-Theorem C02_gd_converged_invalid_refuted : exists eps evs r,
-  accept KGd eps evs r = true /\ sstatus r = ST_CONVERGED /\ valid r = false.
+(* the clause "unless the status is failed, the returned point and value are finite": for every accepted trace of a
+   solver that touches the state only before done() (all but the loose kind) the returned state is the exit snapshot of
+   an event whose state was valid, hence fx, x, gx finite.  (Before repo commit 3c2475d this was false of the faithful
+   model -- gd returned `converged` with fx = +inf; that trace is now rejected, see C02_nonvacuous_accept.) *)
+Theorem C02_accept_not_failed_valid : forall k eps evs r, accept k eps evs r = true -> k <> KLoose -> evs <> [] ->
+  sstatus r <> ST_FAILED ->
+  exists e, In e evs /\ same_state r (ev_after e) = true /\ valid (ev_s e) = true /\
+            ffin (sfx (ev_s e)) = true /\ all_fin (sx (ev_s e)) = true /\ all_fin (sgx (ev_s e)) = true.
 Proof.
-  exists ex_eps, [ex_e1; ex_einf], ex_rinf. vm_compute. auto.
+  intros k eps evs r H NK NE NF.
+  destruct (accept_not_failed_valid k eps evs r H NK NE NF) as (e & I & S & V).
+  destruct (valid_parts _ V) as (A & B & C & _). exists e. repeat split; auto.
 Qed.
-Print Assumptions C02_gd_converged_invalid_refuted.
+Print Assumptions C02_accept_not_failed_valid.
 
 (* ---- the translated kernels are what the proofs assume (fails loudly when the source changes) ------------------ *)
 Theorem C02_kernels :
   (forall i v, src_done_step_ok i v = i && v) /\ (forall c s, src_done_stop c s = c || negb s) /\
-  (forall c, src_done_status c = if c then ST_CONVERGED else ST_FAILED) /\
+  (forall c v, src_done_status c v = if c && v then ST_CONVERGED else ST_FAILED) /\
   src_done_ret_stop = true /\ src_done_ret_go = false /\
   (forall it, src_vt_loop it = (it >? 0)) /\ (forall it, src_vt_pos it = it - 1) /\ (forall it, src_vt_index it = it - 1) /\
   (forall ii n, src_vt_none ii n = (ii =? n)) /\ (forall n p, src_vt_enough n p = (n >=? p)) /\
@@ -228,5 +242,7 @@ Example C02_nonvacuous_accept :
   accept KLs ex_eps [ex_e1; ex_e2] ex_r = true /\ sstatus ex_r = ST_CONVERGED /\
   accept KLs ex_eps [ex_e1] ex_r1 = true /\ sstatus ex_r1 = ST_MAX_ITERS /\
   (* invalid last state: cgd/lbfgs/quasi return the previous one (status max_iters), gd the failed one *)
-  accept KLs ex_eps [ex_e1; ex_e2bad] ex_r1 = true /\ accept KGd ex_eps [ex_e1; ex_e2bad] ex_r1 = false.
+  accept KLs ex_eps [ex_e1; ex_e2bad] ex_r1 = true /\ accept KGd ex_eps [ex_e1; ex_e2bad] ex_r1 = false /\
+  (* `converged` with fx = +inf (the pre-fix behaviour of gd) is not an accepted trace *)
+  accept KGd ex_eps [ex_e1; ex_einf] ex_rinf = false /\ valid ex_rinf = false.
 Proof. vm_compute. repeat split; reflexivity. Qed.
